@@ -862,6 +862,8 @@ class Interp(object):
                 return obj.cls
             if name == '__dict__':
                 return obj.attrs
+            if name == '__module__':
+                return obj.cls.module.name
             try:
                 v, owner = obj.cls.lookup(name)
             except KeyError:
@@ -1065,7 +1067,10 @@ class Interp(object):
             return values.unop({ast.USub: 'neg', ast.UAdd: 'pos', ast.Invert: 'invert'}[type(e.op)], v)
         if hasattr(v, 'sym_unop'):
             return v.sym_unop(self, type(e.op).__name__)
-        return {ast.USub: operator.neg, ast.UAdd: operator.pos, ast.Invert: operator.invert}[type(e.op)](v)
+        try:
+            return {ast.USub: operator.neg, ast.UAdd: operator.pos, ast.Invert: operator.invert}[type(e.op)](v)
+        except TypeError as ex:
+            raise PyRaise(make_exc('TypeError', str(ex)))
 
     def truthy(self, v):
         if isinstance(v, (Sym, Lane, Arr2)):
@@ -1272,6 +1277,9 @@ class Interp(object):
         if isinstance(container, str):
             return item in container
         if isinstance(container, enum.EnumMeta):
+            return item in container
+        import collections.abc
+        if isinstance(container, collections.abc.Mapping) and isinstance(item, (str, int)):
             return item in container
         raise Unsupported('membership in %r' % (container,))
 
